@@ -130,6 +130,27 @@ def _is_catalog(recv: ast.AST) -> bool:
         return recv.id == "translations"
     return isinstance(recv, ast.Call) and isinstance(recv.func, ast.Attribute) and recv.func.attr.endswith("resolve_translations")
 
+
+def _hands_over(loop: ast.For, *, generator: bool) -> bool:
+    """Every iteration passes the loop variable on: at the top level of the loop body (under no test) there is a call that receives the
+    variable (or a nested loop over something derived from it that hands over in turn) and - in a generator - its result is yielded.
+    `for x in e.children(): pass` iterates and drops everything."""
+    names = {t.id for t in ast.walk(loop.target) if isinstance(t, ast.Name)}
+
+    def mentions(e: ast.AST) -> bool:
+        return any(isinstance(x, ast.Name) and x.id in names for x in ast.walk(e))
+
+    for st in loop.body:
+        if isinstance(st, ast.Expr) and isinstance(st.value, ast.YieldFrom) and isinstance(st.value.value, ast.Call) and any(mentions(a) for a in st.value.value.args):
+            return True
+        if not generator and isinstance(st, ast.Expr) and isinstance(st.value, ast.Call) and any(mentions(a) for a in st.value.args):
+            return True
+        if isinstance(st, ast.For) and mentions(st.iter):
+            inner_yields = any(isinstance(x, (ast.Yield, ast.YieldFrom)) for b in st.body for x in ast.walk(b))
+            if _hands_over(st, generator=generator) or (isinstance(st.iter, ast.Call) and inner_yields and not isinstance(st.iter.func, ast.Attribute)):
+                return True
+    return False
+
 def run(prog: Program, res: Result) -> None:  # noqa: PLR0912, PLR0915
     res.explanation = (
         "R1 checks the shape of extract_from_template's visitors. R2 computes, for every translations.<family>() call in a "
@@ -155,7 +176,9 @@ def run(prog: Program, res: Result) -> None:  # noqa: PLR0912, PLR0915
         (visit, "for child in node.children(ctx, include_partials=False)", lambda f: any(isinstance(l, ast.For) and norm(l.iter) == "node.children(ctx, include_partials=False)" and l in f.node.body for l in ast.walk(f.node))),
         (visit, "child.expressions() visited and visit(child) recursed", lambda f: "child.expressions()" in norm(f.node, 20000) and "visit(child)" in norm(f.node, 20000)),
         (visit, "translatable tags yield node.messages()", lambda f: "node.messages()" in norm(f.node, 20000) and "isinstance(node, TranslatableTag)" in norm(f.node, 20000)),
-        (vexpr, "for expression in expr.children(): recurse (unconditional)", lambda f: any(isinstance(l, ast.For) and norm(l.iter) == "expr.children()" and l in f.node.body for l in ast.walk(f.node))),
+        (vexpr, "for expression in expr.children(): recurse (unconditional)", lambda f: any(isinstance(l, ast.For) and norm(l.iter) == "expr.children()" and l in f.node.body and _hands_over(l, generator=True) for l in ast.walk(f.node))),
+        (visit, "every loop over children()/expressions() hands its element to a visitor and yields what comes back", lambda f: all(_hands_over(l, generator=True) for l in ast.walk(f.node) if isinstance(l, ast.For) and isinstance(l.iter, ast.Call) and isinstance(l.iter.func, ast.Attribute) and l.iter.func.attr in ("children", "expressions"))),
+        (eft, "the top-level loop hands every node and each of its expressions to the visitors and yields what comes back", lambda f: all(_hands_over(l, generator=True) for l in f.node.body if isinstance(l, ast.For))),
         (vexpr, "filtered expressions go through _extract_from_filters", lambda f: "_extract_from_filters(" in norm(f.node, 20000) and "isinstance(expr, (FilteredExpression, TernaryFilteredExpression))" in norm(f.node, 20000)),
     ]
     for f, label, pred in checks:
@@ -212,6 +235,12 @@ def run(prog: Program, res: Result) -> None:  # noqa: PLR0912, PLR0915
             flt = norm(c.args[1])
             src = next((norm(a.value.value) for a in ast.walk(eff.node) if isinstance(a, ast.Assign) and any(norm(t) == flt for t in a.targets) and isinstance(a.value, ast.Subscript)), flt)
             pairs.add((norm(c.args[0]), src))
+    # the ternary's left operand is a filtered expression of its own: handing it back to the extractor covers (left.left | left.filters)
+    required_pairs[("expression.left.left", "expression.left.filters")] = "ternary: the left branch's own filters (a FilteredExpression)"
+    for c in ast.walk(eff.node):
+        if isinstance(c, ast.Call) and isinstance(c.func, ast.Name) and c.func.id == eff.name and any(norm(a) == "expression.left" for a in c.args) and isinstance(eff.module.parent(c), (ast.YieldFrom, ast.For, ast.Return)):
+            if ("expression.left", "expression.filters") in pairs:
+                pairs.add(("expression.left.left", "expression.left.filters"))
     for pair, label in required_pairs.items():
         what = f"_extract_from_filters offers `{pair[0]}` to the first filter of `{pair[1]}` ({label})"
         if pair in pairs:
@@ -330,6 +359,100 @@ def run(prog: Program, res: Result) -> None:  # noqa: PLR0912, PLR0915
                 res.ok("C15.R2", f"{c.file}:{call.node.lineno} {c.name}", what, "same family on both sides")
             else:
                 res.fail("C15.R2", file=c.file, line=call.node.lineno, qualname=f"{c.name}.__call__", construct=f"{c.name}: runtime {sorted(called)} vs extractor funcname", message=f"filter {fam}: run time looks up {sorted(called)} but the extractor reports funcname `{fam}`", what=what)
+
+    # ------------------------------------------------------------------ R2b / R2c / R2d: the two sides agree on degenerate operands
+    res.rule("C15.R2b", "where the run time chooses the context family on the TRUTH of the context value (an empty context is looked up as no context), the extractor's context-family branch also tests the truth of the literal's value; where the run time tests `is not None`, presence of the literal suffices")
+    res.rule("C15.R2c", "a condition on the tag itself under which the extractor reports nothing (an empty message block) is a condition under which the run-time selector returns without any catalog lookup")
+    res.rule("C15.R2d", "a translate tag's message context is either a string literal the extractor can report or rejected when the tag is parsed: the extractor has no branch that reports the context-free family for a context argument that is present but not a literal")
+    pairs: list[tuple[ClassInfo, FunctionInfo, FunctionInfo, bool]] = []
+    if isinstance(tt, ClassInfo):
+        for c in prog.subclasses(tt, strict=True):
+            g, m = prog.find_method(c, "gettext"), c.methods.get("messages")
+            if g is not None and m is not None:
+                pairs.append((c, g, m, True))
+    if isinstance(tf, ClassInfo):
+        for c in prog.subclasses(tf, strict=True):
+            g, m = c.methods.get("__call__"), c.methods.get("message")
+            if g is not None and m is not None:
+                pairs.append((c, g, m, False))
+    n_b = n_c = n_d = 0
+    for c, sel, ext, is_tag in pairs:
+        # run-time form of the context test
+        forms: set[str] = set()
+        lookups = [x for x in ast.walk(sel.node) if isinstance(x, ast.Call) and isinstance(x.func, ast.Attribute) and x.func.attr in FAMILY and _is_catalog(x.func.value)]
+        for x in lookups:
+            if x.func.attr not in ("pgettext", "npgettext"):
+                continue
+            for t, pol in _path_condition(sel.module, sel.node, x):
+                for operand, form in _atoms(t, pol):
+                    if "context" in operand.split(".")[-1] and form.split(":")[-1] in ("truthy", "is_not_none"):
+                        forms.add(form.split(":")[-1])
+        # extractor branches that report a context family
+        ctx_branches = [a for a in ast.walk(ext.node) if isinstance(a, ast.Assign) and isinstance(a.value, ast.Constant) and a.value.value in ("pgettext", "npgettext")]
+        for a in ctx_branches:
+            atoms: list[tuple[str, str]] = []
+            for t, pol in _path_condition(ext.module, ext.node, a):
+                atoms += _atoms(t, pol)
+            lits = [o for o, f in atoms if f == "isinstance"]
+            site = f"{ext.file}:{a.lineno} {ext.qualname}"
+            if forms:
+                n_b += 1
+                what = f"{ext.qualname}: `{a.value.value}` is reported under the same notion of 'has a context' as {sel.qualname} uses"
+                if "truthy" in forms:
+                    mirrored = any((o + ".value", "truthy") in atoms for o in lits)
+                    if mirrored:
+                        res.ok("C15.R2b", site, what, "run time tests the truth of the context; the extractor tests the truth of the literal's value")
+                    else:
+                        res.fail("C15.R2b", file=ext.file, line=a.lineno, qualname=ext.qualname, construct=f"{ext.qualname}: {a.value.value} reported for an empty context literal", message=f"{sel.qualname} looks up the context family only when the context is non-empty (truth test), but {ext.qualname} reports `{a.value.value}` for any string literal, including '': the render asks the catalog for the context-free family", what=what)
+                else:
+                    res.ok("C15.R2b", site, what, "run time tests presence (`is not None`); presence of the literal is the mirror")
+        # R2c: silent extractor conditions on the tag itself
+        for r in ast.walk(ext.node):
+            if not isinstance(r, ast.Return):
+                continue
+            v = r.value
+            empty = v is None or (isinstance(v, ast.Constant) and v.value is None) or (isinstance(v, (ast.Tuple, ast.List)) and not v.elts)
+            if not empty:
+                continue
+            atoms = []
+            for t, pol in _path_condition(ext.module, ext.node, r):
+                atoms += _atoms(t, pol)
+            if not atoms or not all(o.startswith("self.") for o, _ in atoms):
+                continue  # silence that depends on literal-ness of operands: outside the property ("applied to string literals")
+            n_c += 1
+            site = f"{ext.file}:{r.lineno} {ext.qualname}"
+            what = f"{ext.qualname} reports nothing when {atoms}: {sel.qualname} makes no catalog lookup then"
+            bad = []
+            opposite = {"truthy": "falsy", "falsy": "truthy", "is_none": "is_not_none", "is_not_none": "is_none"}
+            for x in lookups:
+                xa: list[tuple[str, str]] = []
+                for t, pol in _path_condition(sel.module, sel.node, x):
+                    xa += _atoms(t, pol)
+                if not any((o, opposite.get(f, "?")) in xa for o, f in atoms):
+                    bad.append(x)
+            if bad:
+                res.fail("C15.R2c", file=sel.file, line=bad[0].lineno, qualname=sel.qualname, construct=f"{sel.qualname}: catalog lookup although {ext.qualname} reports nothing ({', '.join(o + ':' + f for o, f in atoms)})", message=f"{ext.qualname} returns no message when {', '.join(o + ' is ' + f for o, f in atoms)}, but {sel.qualname} still calls translations.{bad[0].func.attr}() in that case: a lookup (of the empty msgid) that extraction never reports", what=what)
+            else:
+                res.ok("C15.R2c", site, what, "every catalog call is behind the negated condition")
+        # R2d: present but non-literal context
+        if is_tag:
+            free = [a for a in ast.walk(ext.node) if isinstance(a, ast.Assign) and isinstance(a.value, ast.Constant) and a.value.value in ("gettext", "ngettext")]
+            for a in free:
+                atoms = []
+                for t, pol in _path_condition(ext.module, ext.node, a):
+                    atoms += _atoms(t, pol)
+                n_d += 1
+                site = f"{ext.file}:{a.lineno} {ext.qualname}"
+                what = f"{ext.qualname}: `{a.value.value}` is reported only when no context argument is present"
+                # sound when the branch is guarded by absence of the argument alone (falsy/is_none on the argument), not by a failed literal test
+                nonlit = [o for o, f in atoms if f == "not_isinstance" or (f.startswith("mentioned:") and f.split(":")[-1] in ("isinstance", "not_isinstance"))]
+                if nonlit:
+                    res.fail("C15.R2d", file=ext.file, line=a.lineno, qualname=ext.qualname, construct=f"{ext.qualname}: {a.value.value} reported for a context argument that is not a string literal", message=f"{ext.qualname} falls back to `{a.value.value}` when the context argument is present but not a string literal (a variable); the render then asks the catalog for {'pgettext' if a.value.value == 'gettext' else 'npgettext'} with the variable's value: a lookup whose family and context extraction does not report", what=what)
+                else:
+                    res.ok("C15.R2d", site, what, "guarded by absence only")
+    res.floor("C15.R2b", "context-family branches of extractors", n_b, 4)
+    res.floor("C15.R2c", "silent extractor conditions on the tag", n_c, 1)
+    res.floor("C15.R2d", "context-free branches of tag extractors", n_d, 2)
 
     # ------------------------------------------------------------------ R3 line numbers
     res.rule("C15.R3", "both sides take the line from the originating token: tags use line_number(self.token); filters get _line_number(expr.token) from the visitor")
